@@ -145,6 +145,34 @@ Example C09_error_wakeup_regression :
 Proof. exact rewait_regression. Qed.
 Print Assumptions C09_error_wakeup_regression.
 
+(* ---- stream end (db20ae1) -----------------------------------------------------------------------
+   One call of DeflateBuffer.feed_eof over ANY decompressor: a compressed body that carried data gets a
+   clean EOF only when the decompressor's stream-end checks pass (deflate: eof; every coding: not
+   mid_stream); otherwise the call is an error and the reader is not given EOF.  This is the local step,
+   not a theorem about whole traces: that a corrupt/truncated stream is an error end to end is covered by
+   the correspondence suites and the oracle (kinds truncated_delivered, corrupt_delivered) only. *)
+Theorem C09_clean_eof_needs_complete_stream :
+  forall (H : Type) (heof : H -> bool) (hflush : H -> option bytes) (s s' : st H),
+    db_feed_eof H heof hflush s = (s', None) -> comp (de s) = true -> 0 < d_size (de s) ->
+    heof (d_h (de s)) = true.
+Proof. exact clean_eof_needs_complete. Qed.
+Print Assumptions C09_clean_eof_needs_complete_stream.
+
+Theorem C09_incomplete_stream_is_error :
+  forall (H : Type) (heof : H -> bool) (hflush : H -> option bytes) (s : st H),
+    comp (de s) = true -> 0 < d_size (de s) -> heof (d_h (de s)) = false ->
+    exists e, db_feed_eof H heof hflush s = (s, Some e).
+Proof. exact incomplete_is_error. Qed.
+Print Assumptions C09_incomplete_stream_is_error.
+
+(* the toy gzip member cut before its terminator and checksum (Content-Length complete) used to end in a
+   clean EOF; now both reads raise the payload error and the reader never sees EOF *)
+Example C09_truncated_stream_regression :
+  let r := toy_run 1000 (toy_init 65536 true 8190 8190 125 true PLength 7 1) w_trunc_events in
+  snd r = [ONone; ORes (RErr EContentEncoding); ORes (RErr EContentEncoding)] /\ reof (re (core (fst r))) = false.
+Proof. exact truncated_regression. Qed.
+Print Assumptions C09_truncated_stream_regression.
+
 (* ---- client_max_size ------------------------------------------------------------------------------
    BaseRequest.read(): what it returns never exceeds client_max_size, and what it accumulated before
    raising is at most client_max_size plus the last readany() result (itself bounded by C09_bounded). *)
